@@ -17,6 +17,7 @@ import I3.Gen.GoMimc7
 import I3.Gen.GoGolden
 import I3.Gen.GoBabyjub
 import I3.Gen.GoIndex
+import I3.Gen.GoPoseidonInit
 import I3.Gen.GoChkUtils
 import I3.Gen.GoChkPoseidon
 import I3.Gen.GoChkMimc7
@@ -415,6 +416,15 @@ partial def loop (mode : String) (hin hout : IO.FS.Stream) : IO Unit := do
   loop mode hin hout
 
 def main (args : List String) : IO Unit := do
+  if args.head? = some "initcheck" then
+    -- the TRANSLATED `poseidon.init` (hex parser over the translated string table of constants.go), executed natively,
+    -- must build exactly the tables that T1 read off the literals and that every C01 theorem is about
+    let r := poseidon_init
+    let same := r.1 == I3.Go.Ext.poseidon_c.1 && r.2.1 == I3.Go.Ext.poseidon_c.2.1 &&
+      r.2.2.1 == I3.Go.Ext.poseidon_c.2.2.1 && r.2.2.2 == I3.Go.Ext.poseidon_c.2.2.2
+    let n := r.1.flatten.length + r.2.1.flatten.length + (r.2.2.1.map (·.flatten)).flatten.length + (r.2.2.2.map (·.flatten)).flatten.length
+    IO.println s!"poseidon.init {if same then "tables-equal" else "TABLES-DIFFER"} {if poseidon_init_ok then "no-panic" else "PANICS"} constants={n}"
+    return
   if args.head? = some "index" then
     IO.println s!"translated {translatedFunctions.length} skipped {skippedFunctions.length}"
     return
